@@ -1145,9 +1145,17 @@ func (bc *BlockChain) insertChain2(chain types.Blocks, try int) (int, []interfac
 		case err == ErrKnownBlock:
 			// Block and state both already known. However if the current block is below
 			// this number we did a rollback and we should reimport it nonetheless.
-			if bc.CurrentBlock().NumberU64() >= block.NumberU64() {
-				stats.ignored++
-				continue
+			// A known block that is heavier than the head was stored but never made
+			// canonical (e.g. the process died between writing it and moving the
+			// head): it must be reimported as well, or the node stays on the lighter
+			// branch.
+			if current := bc.CurrentBlock(); current.NumberU64() >= block.NumberU64() {
+				localTd := bc.GetTd(current.Hash(), current.NumberU64())
+				externTd := bc.GetTd(block.Hash(), block.NumberU64())
+				if localTd == nil || externTd == nil || externTd.Cmp(localTd) <= 0 {
+					stats.ignored++
+					continue
+				}
 			}
 
 		case err == consensus.ErrFutureBlock:
